@@ -68,6 +68,29 @@ Renderings(G, V, SP, EP) ==
          eol \in V.eols, bom \in V.boms, rx \in V.radix, nl \in V.nls, st \in V.stars, n \in noise, sb \in styleBlocks, eb \in eventBlocks}
 
 ---------------------------------------------------------------------------
+(* Implementation layer: the control state of ssa.go:ReadFromSSAWithOptions, one step per physical line: the
+   section the reader is in, the number of Format columns it holds, the style and event rows collected so far.
+   LoopObs is what the hook at the top of the loop reports before the line is looked at. *)
+LoopInit == [sec |-> "", nfmt |-> 0, ns |-> 0, ne |-> 0]
+SecName(sec) == CASE sec = "info" -> "script.info" [] sec = "styles" -> "styles" [] sec = "events" -> "events" [] OTHER -> "unknown"
+LoopLine(st, tok) ==
+  CASE tok.k = "section" -> [st EXCEPT !.sec = SecName(tok.sec), !.nfmt = IF tok.sec \in {"styles", "events"} THEN 0 ELSE @]
+    [] st.sec = "unknown" -> st
+    [] tok.k = "format" -> IF st.sec \in {"styles", "events"} THEN [st EXCEPT !.nfmt = Len(tok.cols)] ELSE st
+    [] tok.k = "style" -> IF st.sec = "styles" THEN [st EXCEPT !.ns = @ + 1] ELSE st
+    [] tok.k = "event" -> IF st.sec = "events" THEN [st EXCEPT !.ne = @ + 1] ELSE st
+    [] OTHER -> st                                            \* blank, junk, comment, script-info field
+LoopObsOf(st) == [sec |-> st.sec, nfmt |-> st.nfmt, ns |-> st.ns, ne |-> st.ne]
+RECURSIVE LoopObs(_, _)
+LoopObs(st, toks) == IF toks = <<>> THEN <<>> ELSE <<LoopObsOf(st)>> \o LoopObs(LoopLine(st, Head(toks)), Tail(toks))
+\* physical lines: every script-info header is followed by the ScriptType line (carried by D.plus, not by a token)
+RECURSIVE Phys(_)
+Phys(toks) == IF toks = <<>> THEN <<>>
+              ELSE IF Head(toks).k = "section" /\ Head(toks).sec = "info" THEN <<Head(toks), TInfo("ScriptType", 0)>> \o Phys(Tail(toks))
+              ELSE <<Head(toks)>> \o Phys(Tail(toks))
+ImplHooks(D) == LoopObs(LoopInit, Phys(D.toks))
+
+---------------------------------------------------------------------------
 (* Reference decoder: Format-driven *)
 InitDec == [sec |-> "", fmt |-> <<>>, info |-> <<>>, notes |-> <<>>, styles |-> <<>>, events |-> <<>>]
 
